@@ -150,14 +150,8 @@ Proof.
     + destruct (st_get _ _ _ _); [destruct (st_expiration _ _); [destruct (t_get_ttl _ _)|]|]; inversion H; subst; mnone.
     + destruct (s_closed st); [inversion H; subst; mnone|].
       destruct (st_try_remove _ _ _) as [sto prev]. inversion H; subst. mnone.
-    + destruct (s_closed st); [inversion H; subst; mnone|]. sproj.
-      destruct (buf_send _ _ _) as [st2|] eqn:E.
-      * unfold buf_send in E. sproj. destruct (s_pc st); try discriminate;
-          (match type of E with context [if ?b then _ else _] => destruct b end; [|discriminate]);
-          inversion E; subst; inversion H; subst; mnone.
-      * inversion H; subst. mnone.
-    + destruct (s_closed st); [inversion H; subst; mnone|].
-      destruct (s_pc st); inversion H; subst; mnone.
+    + destruct (s_closed st); inversion H; subst; mnone.
+    + destruct (s_closed st); inversion H; subst; mnone.
     + destruct (s_closed st); inversion H; subst; mnone.
     + inversion H; subst; mnone.
     + inversion H; subst; mnone.
@@ -180,6 +174,12 @@ Proof.
           (match type of E with context [if ?b then _ else _] => destruct b end; [|discriminate]);
           inversion E; subst; inversion H; subst; mnone.
       * destruct (s_pc st); try discriminate; inversion H; subst; mnone.
+    + sproj. destruct (buf_send _ _ _) as [st2|] eqn:E.
+      * unfold buf_send in E. sproj. destruct (s_pc st); try discriminate;
+          (match type of E with context [if ?b then _ else _] => destruct b end; [|discriminate]);
+          inversion E; subst; inversion H; subst; mnone.
+      * inversion H; subst. mnone.
+    + destruct (s_pc st); inversion H; subst; mnone.
     + destruct (s_closed st); inversion H; subst; mnone.
     + destruct (mem_N id (s_done st)); [|discriminate]. inversion H; subst; mnone.
     + destruct (mem_N id (s_done st)); [|discriminate]. destruct closing; inversion H; subst; mnone.
